@@ -15,7 +15,8 @@ EXPLANATION = (
     "(4) tunnels open across the outage end through on_error (C04/C16 clauses re-checked). Bounded time / number of attempts and detection "
     "of silently dropped peers are NOT decided."
     " callback-kept: ContextRefOps::on_connect reads the listener callback and never takes or replaces it, so later on_error / on_finish still reach the listener's session clean-up."
-    " session-released: terminal callbacks of listeners with a session table remove the client's entry on every path.")
+    " session-released: terminal callbacks of listeners with a session table remove the client's entry on every path."
+    ' send-error: in every FrameWriter::write no successful return is reachable from the Err edge of the transport send (a tunnel on a lost shared QUIC connection fails instead of discarding frames).')
 RULE_TEXT = "instances = connector impls, connector struct fields, cache-invalidation edges"
 TRUSTED = ["quinn reports a dead connection as an error of open_bi()", "TCP connect fails for an unreachable upstream"]
 NOT_DECIDED = ["bounded time and number of attempts to recover", "detection of silently dropped peers (keep-alive 30 s / idle 3600 s are constants the check prints but cannot judge)",
@@ -94,9 +95,62 @@ def rule_session_released(chk, prog):
     chk.floor("session-released", n, 2, "terminal callbacks of listeners with a session table")
 
 
+_SEND = re.compile(r"Connection::send_datagram$|UdpSocket::send(_to)?$|AsyncWriteExt::write_all$|frames::Frame::write_to$|SendStream::write_all$")
+
+
+def rule_send_errors(chk, prog, rule="send-error"):
+    """A UDP tunnel carried over a shared QUIC connection (datagram channel) has no stream of its own after the handshake: the error of
+    the transport send is the only signal that the connection is gone.  In every FrameWriter::write, a failed transport send must end
+    the call with an error -- from the Err edge of the send result no successful return is reachable.  A send error that is logged and
+    answered with Ok leaves a tunnel open that accepts, counts and discards every frame (client-side activity even defeats the idle
+    timeout)."""
+    from ..flow import option_tests, result_blocks
+    writers = [i for i in prog.items["redproxy_rs"]["impls"] if i.get("trait") == "common::frames::FrameWriter"]
+    n = 0
+    for im in writers:
+        tys = prog.types["redproxy_rs"][im["self_ty"]]["s"]
+        w = None
+        for it in im["items"]:
+            if it["name"] == "write":
+                w = prog.by_crate["redproxy_rs"].get(it["path"])
+        if w is None:
+            chk.anchor_missing(rule, "write of " + tys)
+            continue
+        g = prog.body_of(w)
+        oks = set(result_blocks(g, "Ok"))
+        for c in g.calls:
+            if not _SEND.search(c.name or c.path or ""):
+                continue
+            n += 1
+            aw = awaited(g, c)
+            res = aw["result"] if aw and aw.get("result") is not None else (c.dest[0] if c.dest else None)
+            ok, why = False, "result never inspected"
+            if res is not None:
+                derived = set(flow_forward(g, [res], [r"easy_error::ResultExt::context$", r"Result::<T, E>::map_err$", r"Try::branch$"])[0]) | {res}
+                if aw and aw.get("poll") is not None and aw["poll"].dest:
+                    derived.add(aw["poll"].dest[0])
+                tests = [o for o in option_tests(g, derived) if o["kind"] in ("Result", "Flow", "?")]
+                returned = 0 in derived
+                ok = bool(tests) or returned
+                why = "%d test(s) of the send result%s" % (len(tests), ", returned as is" if returned else "")
+                for o in tests:
+                    leak = oks & g.reach_from([o["pos"][1]])
+                    if leak:
+                        ok = False
+                        why = "from the Err edge of the send result (bb%d) a successful return is reachable" % o["pos"][0]
+            chk.instance(rule, c.where(), "%s: a failed %s fails the write" % (g.path, short(c.name or c.path)), ok, why)
+            if not ok:
+                chk.finding(rule, g.key, short(c.name or c.path), "", c.where(),
+                            "%s reports success although %s failed (%s): a tunnel whose transport is gone (upstream outage on the shared QUIC "
+                            "connection) keeps accepting and discarding frames instead of failing cleanly" % (g.path, short(c.name or c.path), why))
+    chk.floor(rule, n, 4 if "quic" in prog.features else 3, "transport sends in FrameWriter::write impls")
+
+
+
 def run(chk, prog):
     rule_callback_kept(chk, prog)
     rule_session_released(chk, prog)
+    rule_send_errors(chk, prog)
     impls = [k for k in prog.impls_of.get("redproxy_rs::connectors::Connector::connect", [])]
     chk.floor("dialing", len(impls), 5 if "quic" in prog.features else 4, "Connector::connect impls")
     for k in impls:
